@@ -242,6 +242,80 @@ func C13(c *fw.Ctx) {
 			oneOutcome(c, model.Render(parenAll(prog)), "", fmt.Sprintf("writes-%d", n))
 		}
 	}
+	// B2: function values reached by every route (the outer name, the function's own name inside its body,
+	// a parameter, a closure variable, an element, a property, a call result, a built-in) shown in every way
+	// (printed alone, inside an array, inside an object, joined to a text, in a diagnostic that quotes an
+	// expression, compared): as a script and as prompt lines
+	{
+		id := model.Id
+		routes := []struct {
+			name string
+			pre  func() []*model.N
+			val  func() *model.N
+		}{
+			{"outer-name", func() []*model.N { return []*model.N{model.Fun("f", nil, model.Return(model.Num(1)))} }, func() *model.N { return id("f") }},
+			{"own-name-returned", func() []*model.N { return []*model.N{model.Fun("f", nil, model.Return(id("f")))} }, func() *model.N { return model.CallN("f") }},
+			{"own-name-nested", func() []*model.N {
+				return []*model.N{model.Fun("f", []string{"n"}, model.If(model.Bin(">", id("n"), model.Num(0)), model.Block(model.Return(model.CallN("f", model.Bin("-", id("n"), model.Num(1))))), nil), model.Return(id("f")))}
+			}, func() *model.N { return model.CallN("f", model.Num(2)) }},
+			{"parameter", func() []*model.N { return []*model.N{model.Fun("g", nil), model.Fun("f", []string{"p"}, model.Return(id("p")))} }, func() *model.N { return model.CallN("f", id("g")) }},
+			{"closure-variable", func() []*model.N {
+				return []*model.N{model.Fun("mk", nil, model.Fun("inner", nil, model.Return(id("inner"))), model.Return(id("inner")))}
+			}, func() *model.N { return model.Call(model.CallN("mk")) }},
+			{"element", func() []*model.N { return []*model.N{model.Fun("f", nil), model.Var("fs", model.Arr(id("f")))} }, func() *model.N { return model.Idx(id("fs"), model.Num(0)) }},
+			{"property", func() []*model.N { return []*model.N{model.Fun("f", nil), model.Var("fo", model.Obj([]string{"m"}, []*model.N{id("f")}))} }, func() *model.N { return model.Prop(id("fo"), "m") }},
+			{"built-in", func() []*model.N { return nil }, func() *model.N { return id(model.BiLen) }},
+			{"built-in-through-function", func() []*model.N { return []*model.N{model.Fun("f", []string{"p"}, model.Return(id("p")))} }, func() *model.N { return model.CallN("f", id(model.BiMax)) }},
+		}
+		shows := []struct {
+			name string
+			mk   func(v *model.N) *model.N
+		}{
+			{"print", func(v *model.N) *model.N { return model.Print(v) }},
+			{"print-in-array", func(v *model.N) *model.N { return model.Print(model.Arr(v, model.Num(1))) }},
+			{"print-in-object", func(v *model.N) *model.N { return model.Print(model.Obj([]string{"k"}, []*model.N{v})) }},
+			{"joined-to-text", func(v *model.N) *model.N { return model.Print(model.Bin("+", model.Str("<"), v)) }},
+			{"missing-property", func(v *model.N) *model.N { return model.Print(model.Prop(v, "zz")) }},
+			{"minus", func(v *model.N) *model.N { return model.Print(model.Un("-", v)) }},
+			{"equals-itself", func(v *model.N) *model.N { return model.Print(model.Bin("==", v, v)) }},
+			{"echo", func(v *model.N) *model.N { return model.ExprS(v) }},
+		}
+		for _, rt := range routes {
+			for _, sh := range shows {
+				if !c.Mine() {
+					continue
+				}
+				prog := append(rt.pre(), sh.mk(rt.val()), sh.mk(rt.val()))
+				oneOutcome(c, model.Render(parenAll(prog)), "", "function-value-shown|"+rt.name+"|"+sh.name)
+				// the same as one prompt line, three times in one session and in a second session
+				line := strings.TrimRight(model.RenderOneLine(parenAll(prog)), "\n")
+				var keys []string
+				for rep := 0; rep < 2; rep++ {
+					o := h.RunRepl(line+"\n"+line+"\n"+line+"\n", h.Opts{Fuel: 3_000_000})
+					c.Eval(fmt.Sprint("repl", rep)+line, true)
+					base := fw.Replay{Mode: "repl", Program: line + "\n" + line + "\n" + line + "\n", CLI: true, InStdout: o.Stdout, InStderr: o.Stderr, InStatus: o.Status}
+					if abnormal(c, o, "repl", line, base) {
+						break
+					}
+					parts, ok := splitPrompts(o.Stdout)
+					if !ok || len(parts) != 4 || parts[0] != parts[1] || parts[1] != parts[2] {
+						r := base
+						r.Sig = "C13|outcome-differs|function-value-shown|same-line-three-times"
+						r.What = "the same line typed three times in one session is answered differently"
+						r.Expected = "three identical answers"
+						r.Observed = fmt.Sprintf("stdout %q", trunc(o.Stdout, 300))
+						c.Violate(r)
+						break
+					}
+					keys = append(keys, o.Stdout+"\x00"+o.Stderr)
+				}
+				if len(keys) == 2 && keys[0] != keys[1] {
+					c.Violate(fw.Replay{Sig: "C13|outcome-differs|function-value-shown|two-sessions", What: "the same session run twice differs", Mode: "repl", Program: line + "\n" + line + "\n" + line + "\n", CLI: true,
+						Expected: trunc(keys[0], 300), Observed: trunc(keys[1], 300)})
+				}
+			}
+		}
+	}
 	// C: diagnostics that quote an object literal
 	for n := 1; n <= 4; n++ {
 		for _, perm := range permutations(n) {
